@@ -231,12 +231,13 @@ fn same_text(b: &Flat, a: &Flat) -> bool {
     b.kind == a.kind && (b.text == a.text || (!b.text.ends_with(['\n', '\r']) && a.text.len() == b.text.len() + 1 && a.text.starts_with(&b.text) && a.text.ends_with('\n')))
 }
 
-fn seq_equal(b: &[&Flat], a: &[&Flat]) -> Result<(), String> {
+/// `allow_gain`: an unterminated last line may gain its newline — only when the edit put something after it.
+fn seq_equal(b: &[&Flat], a: &[&Flat], allow_gain: bool) -> Result<(), String> {
     if b.len() != a.len() {
         return Err(format!("{} untouched segments before, {} after", b.len(), a.len()));
     }
     for (x, y) in b.iter().zip(a.iter()) {
-        if !same_text(x, y) {
+        if !(if allow_gain { same_text(x, y) } else { x.kind == y.kind && x.text == y.text }) {
             return Err(format!("untouched segment {:?} became {:?}", x.text, y.text));
         }
     }
@@ -297,7 +298,7 @@ pub fn locality_field(before: &str, after: &str, ord_before: Option<usize>, ord_
     }
     let ob: Vec<&Flat> = b.iter().enumerate().filter(|(i, _)| !touched_b.contains(i)).map(|x| x.1).collect();
     let oa: Vec<&Flat> = a.iter().enumerate().filter(|(i, _)| !touched_a.contains(i)).map(|x| x.1).collect();
-    seq_equal(&ob, &oa)
+    seq_equal(&ob, &oa, matches!(op, FieldOp::Append { .. }))
 }
 
 /// Locality for paragraph-level edits: every other paragraph's text and every comment byte-identical
@@ -352,7 +353,7 @@ fn locality_para(before: &str, after: &str, removing: bool, removed_ord: Option<
         let r = (|| -> Result<(), String> {
             let nb: Vec<&Flat> = b.iter().enumerate().filter(|(i, f)| f.kind != 'b' && !gone.contains(i)).map(|x| x.1).collect();
             let na: Vec<&Flat> = a.iter().filter(|f| f.kind != 'b').collect();
-            seq_equal(&nb, &na)?;
+            seq_equal(&nb, &na, true)?;
             // blank lines may only change next to the inserted / removed paragraph: everything before
             // the first change and after the last change lines up, the changed region is blank lines only
             let bt: Vec<&Flat> = b.iter().enumerate().filter(|(i, _)| !gone.contains(i)).map(|x| x.1).collect();
